@@ -350,6 +350,12 @@ def r9(ctx):
             ctx.check(fr(resp) and fr(series), "read-series:%s:recorded" % var, "LastValidRequest::new(.., response, series) both come from format_first_read_response (%s)" % expr_str(series)[:50], bd.where(c.idx), bad_detail="the %s arm records series = `%s`: the series state returned with the first fragment is dropped, so a response that asks for confirmation is never waited for" % (var, expr_str(series)[:60]))
 
 
+def r10(ctx):
+    """'every existing selected point exactly once': a READ deferred during an unsolicited confirm wait and then retransmitted must
+    not have its headers appended twice; DeferredRead::set starts from an empty list (C14.R7, shared code)."""
+    import c14
+    c14.r7(ctx)
+
 RULES = [
     ("C11.R1", "T5", "the static writer reads the frozen copy only", r1),
     ("C11.R2", "T2", "events before static, static only when all selected events fit; queue pop/update discipline", r2),
@@ -360,4 +366,5 @@ RULES = [
     ("C11.R7", "T2-loop/T8", "solicited confirm wait: deadline discipline; the expected confirm sequence is that of the current fragment", r7),
     ("C11.R8", "T3", "a range header cut by a full fragment announces only the objects it carries (shared with C09.R10)", r8),
     ("C11.R9", "T8", "both READ arms record the series state returned with the first fragment", r9),
+    ("C11.R10", "T2", "a deferred READ holds exactly the headers of the last READ received (shared with C14.R7)", r10),
 ]
